@@ -154,8 +154,20 @@ structure St (σ : Type) where
       score it re-bases beyond `Inf` (Proofs/SearchRealScore.lean).  The flag is never cleared
       during a search. -/
   nmpOut : Bool
+  /-- ghost (any ply): a value that is NOT ply-consistent — beyond `±max(Inf-MaxPlies, Inf-ply)`, the
+      largest magnitude a score can have at this ply — was handed to `tt.Insert` at one of the five
+      store sites (`ttBad`).  `Insert` re-bases a mate score by the ply, so such a value is the only way
+      a raw table value beyond `±Inf` can arise.  This is the exact event the score theorems for the
+      real components have to exclude; `nmpOut` is a (measured: strictly) earlier necessary
+      condition for it.  The flag is never cleared during a search. -/
+  ttOut : Bool
 
 variable {σ π : Type}
+
+/-- the value `v` stored at `ply` is not ply-consistent: `|v| > max (Inf-MaxPlies) (Inf-ply)`
+    (`¬ RelP ply v` of Proofs/SearchScoreLaws.lean, with the literals written out). -/
+def ttBad (ply : Int) (v : Score) : Bool :=
+  decide (v > max 9936 (10000 - ply)) || decide (v < -(max 9936 (10000 - ply)))
 
 /-- `s.abort(opts)`. -/
 def abort (L : Limits) (s : St σ) : Bool × St σ :=
@@ -210,6 +222,7 @@ def popFrame (s : St σ) : St σ := { s with frames := s.frames - 1 }
 def outOfFuel (s : St σ) : St σ := { s with aborted := true, fuelOut := true }
 def flag (s : St σ) (a : Bool) : St σ := { s with anomaly := s.anomaly || a }
 def flagNmp (s : St σ) (a : Bool) : St σ := { s with nmpOut := s.nmpOut || a }
+def flagTT (s : St σ) (a : Bool) : St σ := { s with ttOut := s.ttOut || a }
 end St
 
 /-- outcome of a loop: the enclosing function returns `v`, or the loop ended with its variables `l`. -/
@@ -242,7 +255,7 @@ def qAfter (c : Comp σ π) (L : Limits) (beta : Score) (ply : Int) (m : Move) (
   if as.1 then (.ret Inv, as.2) else
   let s := as.2
   if curr ≥ beta then
-    (.ret curr, s.setPs (c.ttStore s.ps s.board 0 ply m curr .lower))
+    (.ret curr, (s.setPs (c.ttStore s.ps s.board 0 ply m curr .lower)).flagTT (ttBad ply curr))
   else
     let l' : QLoop := { alpha := max l.alpha curr, maxim := max l.maxim curr }
     (.cont l', s)
@@ -296,7 +309,7 @@ def qBody (c : Comp σ π) (L : Limits) (child : Score → Score → Int → St 
   let s := r.2.popFrame
   match r.1 with
   | .ret v => (v, s)
-  | .done l => (l.maxim, s.setPs (c.ttStore s.ps s.board 0 ply 0 l.maxim .upper))
+  | .done l => (l.maxim, (s.setPs (c.ttStore s.ps s.board 0 ply 0 l.maxim .upper)).flagTT (ttBad ply l.maxim))
 
 /-- `quiescence`. -/
 def quiescence (c : Comp σ π) (L : Limits) : Nat → Score → Score → Int → St σ → Score × St σ
@@ -377,7 +390,7 @@ def abAfter (c : Comp σ π) (L : Limits) (x : ABCtx) (m : Move) (r : Board.Reve
     if value ≥ x.beta then
       let ps := c.ttStore s.ps s.board x.d x.ply m value .lower
       let ps := c.failHigh ps x.d s.board l.pick s.hstack
-      (.ret value, s.setPs ps)
+      (.ret value, (s.setPs ps).flagTT (ttBad x.ply value))
     else
       let l := { l with pick := c.setWeight l.pick value, failLow := false, alpha := value, bestMove := m }
       let s := s.setPv (s.pv.insert x.ply.toNat m)
@@ -458,7 +471,8 @@ def abMoves (c : Comp σ π) (L : Limits) (child : Child σ) (alpha beta : Score
     let ps :=
       if failLow then c.ttStore s.ps s.board d ply 0 maxim .upper
       else c.ttStore s.ps s.board d ply l.bestMove maxim .exact
-    (maxim, (s.setPs ps).flag (decide (ply = 0) && l.hasLegal && l.failLow && decide (l.maxim > alpha)))
+    (maxim, ((s.setPs ps).flag (decide (ply = 0) && l.hasLegal && l.failLow && decide (l.maxim > alpha))).flagTT
+      (ttBad ply maxim))
 
 /-- the pruning steps of a node once the static values are known: reverse futility, null move,
     then the move loop. -/
@@ -627,7 +641,7 @@ structure Engine (σ : Type) where
 def goInit (L : Limits) (e : Engine σ) (b : Board) (nodes0 : Int) : St σ :=
   { board := b, pv := e.pv, nodes := nodes0, abNodes := 0, aborted := false, polls := 0,
     pondering := L.ponder.isSome, ps := e.ps, frames := 0, hstack := [], fuelOut := false, anomaly := false,
-    nmpOut := false }
+    nmpOut := false, ttOut := false }
 
 /-- the deferred `s.gen++`. -/
 def finish (c : Comp σ π) (r : Result σ) : Result σ := { r with st := r.st.setPs (c.nextGen r.st.ps) }
